@@ -75,6 +75,8 @@ Section Driver.
   Variable err_f : spoint -> V.                            (* the value pushed for <error_recovery_token> *)
   Variable rule_f : nat -> C -> list V -> C * V.           (* rule r_idx, context, children left to right *)
 
+  (* parse_state plus the stacks. The output stream is not part of the state: every helper returns the
+     lines it would write with verbose on; [run] keeps those the options let through. *)
   Record pstate := mkPS {
     ps_cursors : list nat;        (* top first *)
     ps_values : list V;           (* top first *)
@@ -82,59 +84,43 @@ Section Driver.
     ps_it : nat; ps_end : nat;
     ps_term : option nat;
     ps_rec : bool; ps_cons : bool;
-    ps_ctx : C;
-    ps_out : list event           (* newest first *)
+    ps_ctx : C
   }.
-
-  Definition emit (s : pstate) (e : event) : pstate :=
-    mkPS (ps_cursors s) (ps_values s) (ps_sp s) (ps_it s) (ps_end s) (ps_term s) (ps_rec s) (ps_cons s) (ps_ctx s) (e :: ps_out s).
-  Definition vemit (s : pstate) (e : event) : pstate := if o_verbose opts then emit s e else s.
-  Definition emit_lex (s : pstate) (l : list lex_event) : pstate :=
-    mkPS (ps_cursors s) (ps_values s) (ps_sp s) (ps_it s) (ps_end s) (ps_term s) (ps_rec s) (ps_cons s) (ps_ctx s)
-         (rev (map EvLex l) ++ ps_out s).
 
   Definition full (n : nat) : bool := match stack_cap with Some c => Nat.leb c n | None => false end.
 
-  Definition init (c : C) : pstate := mkPS [0] [] sp0 0 0 None false false c [].
+  Definition init (c : C) : pstate := mkPS [0] [] sp0 0 0 None false false c.
 
-  (* get_current_term: inr = the term index (state updated), inl = lexical failure *)
-  Definition get_current_term (s : pstate) : pstate * option nat :=
-    if ps_rec s then (s, Some (err_idx g)) else
-    if negb (Nat.eqb (ps_it s) (ps_end s)) then (s, ps_term s) else
+  Definition set_pos (s : pstate) (p : spoint) (i e : nat) (t : option nat) : pstate :=
+    mkPS (ps_cursors s) (ps_values s) p i e t (ps_rec s) (ps_cons s) (ps_ctx s).
+  Definition set_modes (s : pstate) (r c : bool) : pstate :=
+    mkPS (ps_cursors s) (ps_values s) (ps_sp s) (ps_it s) (ps_end s) (ps_term s) r c (ps_ctx s).
+  Definition set_stacks (s : pstate) (cs : list nat) (vs : list V) : pstate :=
+    mkPS cs vs (ps_sp s) (ps_it s) (ps_end s) (ps_term s) (ps_rec s) (ps_cons s) (ps_ctx s).
+  Definition set_ctx (s : pstate) (c : C) : pstate :=
+    mkPS (ps_cursors s) (ps_values s) (ps_sp s) (ps_it s) (ps_end s) (ps_term s) (ps_rec s) (ps_cons s) c.
+
+  (* get_current_term: new state, the term index (None = lexical failure), lines written *)
+  Definition get_current_term (s : pstate) : pstate * option nat * list event :=
+    if ps_rec s then (s, Some (err_idx g), []) else
+    if negb (Nat.eqb (ps_it s) (ps_end s)) then (s, ps_term s, []) else
     let rest0 := skipn (ps_it s) buf in
     let k := if o_skip_ws opts then count_ws opts rest0 else 0 in
     let sp1 := sp_update (ps_sp s) (firstn k rest0) in
     let it1 := ps_it s + k in
-    let s1 := mkPS (ps_cursors s) (ps_values s) sp1 it1 (ps_end s) (ps_term s) (ps_rec s) (ps_cons s) (ps_ctx s) (ps_out s) in
-    let rest := skipn k rest0 in
-    match rest with
-    | [] =>
-        let s2 := mkPS (ps_cursors s1) (ps_values s1) sp1 it1 (ps_end s1) (Some (eof_idx g)) (ps_rec s1) (ps_cons s1) (ps_ctx s1) (ps_out s1) in
-        (vemit s2 (EvRecognized sp1 (eof_idx g)), Some (eof_idx g))
-    | c :: _ =>
-        let '(lx, res) := lexer (o_verbose opts) sp1 rest in
-        let s2 := emit_lex s1 lx in
+    match skipn k rest0 with
+    | [] => (set_pos s sp1 it1 (ps_end s) (Some (eof_idx g)), Some (eof_idx g), [EvRecognized sp1 (eof_idx g)])
+    | c :: rest =>
+        let '(lx, res) := lexer (o_verbose opts) sp1 (c :: rest) in
         match res with
-        | None =>
-            let s3 := mkPS (ps_cursors s2) (ps_values s2) sp1 it1 (ps_end s2) None (ps_rec s2) (ps_cons s2) (ps_ctx s2) (ps_out s2) in
-            (emit s3 (EvUnexpectedChar sp1 c), None)
-        | Some (t, len) =>
-            let s3 := mkPS (ps_cursors s2) (ps_values s2) sp1 it1 (it1 + len) (Some t) (ps_rec s2) (ps_cons s2) (ps_ctx s2) (ps_out s2) in
-            (vemit s3 (EvRecognized sp1 t), Some t)
+        | None => (set_pos s sp1 it1 (ps_end s) None, None, map EvLex lx ++ [EvUnexpectedChar sp1 c])
+        | Some (t, len) => (set_pos s sp1 it1 (it1 + len) (Some t), Some t, map EvLex lx ++ [EvRecognized sp1 t])
         end
     end.
 
   (* consume_term *)
   Definition consume_term (s : pstate) : pstate :=
-    mkPS (ps_cursors s) (ps_values s) (sp_update (ps_sp s) (slice_of buf (ps_it s) (ps_end s))) (ps_end s) (ps_end s)
-         (ps_term s) (ps_rec s) (ps_cons s) (ps_ctx s) (ps_out s).
-
-  Definition set_modes (s : pstate) (r c : bool) : pstate :=
-    mkPS (ps_cursors s) (ps_values s) (ps_sp s) (ps_it s) (ps_end s) (ps_term s) r c (ps_ctx s) (ps_out s).
-  Definition set_stacks (s : pstate) (cs : list nat) (vs : list V) : pstate :=
-    mkPS cs vs (ps_sp s) (ps_it s) (ps_end s) (ps_term s) (ps_rec s) (ps_cons s) (ps_ctx s) (ps_out s).
-  Definition set_ctx (s : pstate) (c : C) : pstate :=
-    mkPS (ps_cursors s) (ps_values s) (ps_sp s) (ps_it s) (ps_end s) (ps_term s) (ps_rec s) (ps_cons s) c (ps_out s).
+    set_pos s (sp_update (ps_sp s) (slice_of buf (ps_it s) (ps_end s))) (ps_end s) (ps_end s) (ps_term s).
 
   Definition cell (st col : nat) : (entry + crash) :=
     match nth_error tbl st with
@@ -146,136 +132,144 @@ Section Driver.
     end.
 
   (* reduce(ctx, ps, rule_info_idx) *)
-  Definition do_reduce (s : pstate) (rule_info_idx : nat) : pstate + result V :=
+  Definition do_reduce (s : pstate) (rule_info_idx : nat) : (pstate * list event) + result V :=
     match nth_error (rule_infos g) rule_info_idx with
     | None => inr (Crash CrRuleInfo)
     | Some ri =>
-        let s1 := vemit s (EvReduce (ps_sp s) (ri_r ri) rule_info_idx) in
         let n := ri_n ri in
-        if Nat.ltb (length (ps_cursors s1)) n then inr (Crash CrStackUnderflow) else
-        let cs := skipn n (ps_cursors s1) in
+        if Nat.ltb (length (ps_cursors s)) n then inr (Crash CrStackUnderflow) else
+        let cs := skipn n (ps_cursors s) in
         match cs with
         | [] => inr (Crash CrEmptyStack)
         | top :: _ =>
             match cell top (ri_l ri) with
             | inr c => inr (Crash c)
             | inl e =>
-                let s2 := vemit s1 (EvGoto (ps_sp s1) (e_arg e)) in
                 if full (length cs) then inr Throw else
                 match e_arg e with
                 | None => inr (Crash CrGotoUninit)
                 | Some nst =>
-                    if Nat.ltb (length (ps_values s2)) n then inr (Crash CrStackUnderflow) else
-                    let args := rev (firstn n (ps_values s2)) in
-                    let '(c', v) := rule_f (ri_r ri) (ps_ctx s2) args in
-                    let vs := skipn n (ps_values s2) in
+                    if Nat.ltb (length (ps_values s)) n then inr (Crash CrStackUnderflow) else
+                    let args := rev (firstn n (ps_values s)) in
+                    let '(c', v) := rule_f (ri_r ri) (ps_ctx s) args in
+                    let vs := skipn n (ps_values s) in
                     if full (length vs) then inr Throw else
-                    inl (set_ctx (set_stacks s2 (nst :: cs) (v :: vs)) c')
+                    inl (set_ctx (set_stacks s (nst :: cs) (v :: vs)) c',
+                         [EvReduce (ps_sp s) (ri_r ri) rule_info_idx; EvGoto (ps_sp s) (Some nst)])
                 end
             end
         end
     end.
 
   (* pop_stacks: inl = continue, inr = could not recover *)
-  Definition pop_stacks (s : pstate) : pstate + pstate :=
+  Definition pop_stacks (s : pstate) : (pstate * list event) + (pstate * list event) :=
     let cs := tl (ps_cursors s) in
-    let vs := tl (ps_values s) in
-    let s1 := set_stacks s cs vs in
+    let s1 := set_stacks s cs (tl (ps_values s)) in
     match cs with
-    | [] => inr (vemit s1 (EvCouldNotRecover (ps_sp s1)))
-    | top :: _ => inl (vemit s1 (EvRecoveringTo (ps_sp s1) top))
+    | [] => inr (s1, [EvCouldNotRecover (ps_sp s)])
+    | top :: _ => inl (s1, [EvRecoveringTo (ps_sp s) top])
     end.
 
-  (* one iteration of the while(true) loop: inl = next state, inr = final result with final state *)
-  Definition step (s : pstate) : pstate + (result V * pstate) :=
-    match ps_cursors s with
-    | [] => inr (Crash CrEmptyStack, s)
-    | cursor :: _ =>
-        let '(s1, ot) := get_current_term s in
-        match ot with
-        | None => inr (Reject, s1)
-        | Some t =>
-            match cell cursor (nterm_count g + t) with
-            | inr c => inr (Crash c, s1)
-            | inl e =>
-                match e_kind e with
-                | KError =>
-                    if ps_cons s1 then
-                      (* consume_term_recovering *)
-                      if match ps_term s1 with Some x => Nat.eqb x (eof_idx g) | None => false end
-                      then inr (Reject, s1)
-                      else inl (consume_term (vemit s1 (EvConsuming (ps_sp s1) (match ps_term s1 with Some x => x | None => 0 end))))
-                    else if negb (ps_rec s1) then
-                      let s2 := emit s1 (EvSyntaxError (ps_sp s1) (match ps_term s1 with Some x => x | None => 0 end)) in
-                      let s3 := vemit s2 (EvEnterRecovery (ps_sp s2)) in
-                      inl (set_modes s3 true (ps_cons s3))
-                    else
-                      match pop_stacks s1 with
-                      | inl s2 => inl s2
-                      | inr s2 => inr (Reject, s2)
-                      end
-                | k =>
-                    let s2 := if ps_cons s1 then set_modes (vemit s1 (EvLeaveConsume (ps_sp s1))) (ps_rec s1) false else s1 in
-                    match k with
-                    | KShift =>
-                        match e_arg e with
-                        | None => inr (Crash CrGotoUninit, s2)
-                        | Some nst =>
-                            let s3 := vemit s2 (EvShift (ps_sp s2) nst (ps_it s2) (ps_end s2 - ps_it s2)) in
-                            if full (length (ps_cursors s3)) then inr (Throw, s3) else
-                            if Nat.ltb (length buf) (ps_end s3) then inr (Crash CrBufferOverrun, s3) else
-                            let v := term_f t (ps_it s3) (ps_end s3 - ps_it s3) (ps_sp s3) in
-                            inl (consume_term (set_stacks s3 (nst :: ps_cursors s3) (v :: ps_values s3)))
-                        end
-                    | KShiftErr =>
-                        match e_arg e with
-                        | None => inr (Crash CrGotoUninit, s2)
-                        | Some nst =>
-                            let s3 := vemit s2 (EvShiftErr (ps_sp s2) nst) in
-                            if full (length (ps_cursors s3)) then inr (Throw, s3) else
-                            let s4 := set_stacks s3 (nst :: ps_cursors s3) (err_f (ps_sp s3) :: ps_values s3) in
-                            let s5 := set_modes (vemit s4 (EvLeaveRecovery (ps_sp s4))) false (ps_cons s4) in
-                            inl (set_modes (vemit s5 (EvEnterConsume (ps_sp s5))) (ps_rec s5) true)
-                        end
-                    | KReduce =>
-                        match e_arg e with
-                        | None => inr (Crash CrRRArg, s2)
-                        | Some r => match do_reduce s2 r with
-                                    | inl s3 => inl s3
-                                    | inr res => inr (res, s2)
-                                    end
-                        end
-                    | KRR =>
-                        let s3 := vemit s2 (EvRR (ps_sp s2)) in
-                        match e_arg e with
-                        | None => inr (Crash CrRRArg, s3)
-                        | Some r => match do_reduce s3 r with
-                                    | inl s4 => inl s4
-                                    | inr res => inr (res, s3)
-                                    end
-                        end
-                    | KSuccess =>
-                        let s3 := vemit s2 (EvSuccess (ps_sp s2)) in
-                        match rev (ps_values s3) with
-                        | [] => inr (Crash CrNoValue, s3)
-                        | v :: _ => inr (Accept v, s3)
-                        end
-                    | KError => inr (Reject, s2)   (* unreachable *)
-                    end
+  Definition term_or0 (s : pstate) : nat := match ps_term s with Some x => x | None => 0 end.
+
+  (* the action part of one loop iteration, after the current term t is known *)
+  Definition act (s1 : pstate) (cursor t : nat) : (pstate + (result V * pstate)) * list event :=
+    match cell cursor (nterm_count g + t) with
+    | inr c => (inr (Crash c, s1), [])
+    | inl e =>
+        match e_kind e with
+        | KError =>
+            if ps_cons s1 then
+              (* consume_term_recovering *)
+              if match ps_term s1 with Some x => Nat.eqb x (eof_idx g) | None => false end
+              then (inr (Reject, s1), [])
+              else (inl (consume_term s1), [EvConsuming (ps_sp s1) (term_or0 s1)])
+            else if negb (ps_rec s1) then
+              (inl (set_modes s1 true (ps_cons s1)), [EvSyntaxError (ps_sp s1) (term_or0 s1); EvEnterRecovery (ps_sp s1)])
+            else
+              match pop_stacks s1 with
+              | inl (s2, ev) => (inl s2, ev)
+              | inr (s2, ev) => (inr (Reject, s2), ev)
+              end
+        | k =>
+            let lc := if ps_cons s1 then [EvLeaveConsume (ps_sp s1)] else [] in
+            let s2 := if ps_cons s1 then set_modes s1 (ps_rec s1) false else s1 in
+            match k with
+            | KShift =>
+                match e_arg e with
+                | None => (inr (Crash CrGotoUninit, s2), lc)
+                | Some nst =>
+                    let ev := lc ++ [EvShift (ps_sp s2) nst (ps_it s2) (ps_end s2 - ps_it s2)] in
+                    if full (length (ps_cursors s2)) then (inr (Throw, s2), ev) else
+                    if Nat.ltb (length buf) (ps_end s2) then (inr (Crash CrBufferOverrun, s2), ev) else
+                    let v := term_f t (ps_it s2) (ps_end s2 - ps_it s2) (ps_sp s2) in
+                    (inl (consume_term (set_stacks s2 (nst :: ps_cursors s2) (v :: ps_values s2))), ev)
                 end
+            | KShiftErr =>
+                match e_arg e with
+                | None => (inr (Crash CrGotoUninit, s2), lc)
+                | Some nst =>
+                    let ev := lc ++ [EvShiftErr (ps_sp s2) nst] in
+                    if full (length (ps_cursors s2)) then (inr (Throw, s2), ev) else
+                    (inl (set_modes (set_stacks s2 (nst :: ps_cursors s2) (err_f (ps_sp s2) :: ps_values s2)) false true),
+                     ev ++ [EvLeaveRecovery (ps_sp s2); EvEnterConsume (ps_sp s2)])
+                end
+            | KReduce =>
+                match e_arg e with
+                | None => (inr (Crash CrRRArg, s2), lc)
+                | Some r => match do_reduce s2 r with
+                            | inl (s3, ev) => (inl s3, lc ++ ev)
+                            | inr res => (inr (res, s2), lc)
+                            end
+                end
+            | KRR =>
+                match e_arg e with
+                | None => (inr (Crash CrRRArg, s2), lc ++ [EvRR (ps_sp s2)])
+                | Some r => match do_reduce s2 r with
+                            | inl (s3, ev) => (inl s3, lc ++ EvRR (ps_sp s2) :: ev)
+                            | inr res => (inr (res, s2), lc ++ [EvRR (ps_sp s2)])
+                            end
+                end
+            | KSuccess =>
+                match rev (ps_values s2) with
+                | [] => (inr (Crash CrNoValue, s2), lc ++ [EvSuccess (ps_sp s2)])
+                | v :: _ => (inr (Accept v, s2), lc ++ [EvSuccess (ps_sp s2)])
+                end
+            | KError => (inr (Reject, s2), lc)   (* unreachable *)
             end
         end
     end.
 
-  Fixpoint run_from (fuel : nat) (s : pstate) : result V * pstate :=
+  (* one iteration of the while(true) loop: inl = next state, inr = final result with final state; plus the lines *)
+  Definition step (s : pstate) : (pstate + (result V * pstate)) * list event :=
+    match ps_cursors s with
+    | [] => (inr (Crash CrEmptyStack, s), [])
+    | cursor :: _ =>
+        let '(s1, ot, ev1) := get_current_term s in
+        match ot with
+        | None => (inr (Reject, s1), ev1)
+        | Some t => let '(r, ev2) := act s1 cursor t in (r, ev1 ++ ev2)
+        end
+    end.
+
+  (* what reaches the stream: everything when verbose, otherwise only the two error messages *)
+  Definition visible (e : event) : bool := o_verbose opts || is_nonverbose e.
+
+  Fixpoint run_from (fuel : nat) (s : pstate) (out : list event) : result V * pstate * list event :=
     match fuel with
-    | 0 => (OutOfFuel, s)
+    | 0 => (OutOfFuel, s, out)
     | S f => match step s with
-             | inl s' => run_from f s'
-             | inr r => r
+             | (inl s', ev) => run_from f s' (out ++ filter visible ev)
+             | (inr (r, s'), ev) => (r, s', out ++ filter visible ev)
              end
     end.
 
-  Definition run (fuel : nat) (c : C) : result V * pstate := run_from fuel (init c).
-  Definition trace (s : pstate) : list event := rev (ps_out s).
+  Definition run (fuel : nat) (c : C) : result V * pstate * list event := run_from fuel (init c) [].
 End Driver.
+
+Arguments mkPS {V C}.
+Arguments ps_cursors {V C}. Arguments ps_values {V C}. Arguments ps_sp {V C}. Arguments ps_it {V C}.
+Arguments ps_end {V C}. Arguments ps_term {V C}. Arguments ps_rec {V C}. Arguments ps_cons {V C}.
+Arguments ps_ctx {V C}.
+Arguments set_pos {V C}. Arguments set_modes {V C}. Arguments set_stacks {V C}. Arguments set_ctx {V C}.
+Arguments init {V C}. Arguments term_or0 {V C}.
